@@ -9,20 +9,28 @@ use std::sync::{Arc, Barrier};
 #[repr(align(64))]
 struct Shared([u8; 128]);
 
-fn program(width: usize, addend: u64, count: u32, off: i16, via_r1: bool, addr: u64) -> Vec<u8> {
-    // r1 = address of the region (packet pointer for compiled engines, lddw for the interpreter)
-    // r2 = addend ; r3 = count ; loop: xadd [r1+off], r2 ; r3 -= 1 ; jne r3, 0, -3 ; exit
+/// (base register, source register) of the atomic add, per thread: every register is the base in
+/// some thread and the source in another (an engine may encode the instruction differently
+/// depending on the registers).
+const PAIRS: [(u8, u8); 10] = [(1, 2), (7, 8), (6, 0), (9, 4), (3, 5), (0, 7), (2, 6), (5, 9), (8, 1), (4, 3)];
+
+fn program(width: usize, addend: u64, count: u32, off: i16, via_r1: bool, addr: u64, rb: u8, rs: u8) -> Vec<u8> {
+    // rB = address of the region (packet pointer for compiled engines, lddw for the interpreter)
+    // rS = addend ; rC = count ; loop: xadd [rB+off], rS ; rC -= 1 ; jne rC, 0, -3 ; exit
+    let rc = *[3u8, 4, 5].iter().find(|r| **r != rb && **r != rs).unwrap();
     let mut p: Vec<[u8; 8]> = Vec::new();
     if !via_r1 {
-        p.push(encode_slot(0x18, 1, 0, 0, addr as u32 as i32));
+        p.push(encode_slot(0x18, rb, 0, 0, addr as u32 as i32));
         p.push(encode_slot(0, 0, 0, 0, (addr >> 32) as u32 as i32));
+    } else if rb != 1 {
+        p.push(encode_slot(0xbf, rb, 1, 0, 0));
     }
-    p.push(encode_slot(0x18, 2, 0, 0, addend as u32 as i32));
+    p.push(encode_slot(0x18, rs, 0, 0, addend as u32 as i32));
     p.push(encode_slot(0, 0, 0, 0, (addend >> 32) as u32 as i32));
-    p.push(encode_slot(0xb7, 3, 0, 0, count as i32));
-    p.push(encode_slot(if width == 4 { 0xc3 } else { 0xdb }, 1, 2, off, 0));
-    p.push(encode_slot(0x07, 3, 0, 0, -1));
-    p.push(encode_slot(0x55, 3, 0, -3, 0));
+    p.push(encode_slot(0xb7, rc, 0, 0, count as i32));
+    p.push(encode_slot(if width == 4 { 0xc3 } else { 0xdb }, rb, rs, off, 0));
+    p.push(encode_slot(0x07, rc, 0, 0, -1));
+    p.push(encode_slot(0x55, rc, 0, -3, 0));
     p.push(encode_slot(0xb7, 0, 0, 0, 0));
     p.push(encode_slot(0x95, 0, 0, 0, 0));
     p.concat()
@@ -34,6 +42,7 @@ pub fn run_config(cfg: &Value) -> Value {
     let count = cfg["count"].as_u64().unwrap() as u32;
     let engines: Vec<String> = arr(&cfg["engines"]).iter().map(|e| e.as_str().unwrap().to_string()).collect();
     let woff = cfg["word_offset"].as_u64().unwrap() as usize;        // offset of the word in the region
+    let rot = cfg["pair_rotation"].as_u64().unwrap_or(0) as usize;
     let shared = Box::leak(Box::new(Shared([0u8; 128])));
     for (k, b) in shared.0.iter_mut().enumerate() {
         *b = (k as u8).wrapping_mul(29).wrapping_add(7);
@@ -59,7 +68,8 @@ pub fn run_config(cfg: &Value) -> Value {
         let b = barrier.clone();
         handles.push(std::thread::spawn(move || -> Result<u64, String> {
             let via_r1 = e != "interp";
-            let prog: &'static [u8] = Box::leak(program(width, addend, count, woff as i16, via_r1, base).into_boxed_slice());
+            let (rb, rs) = PAIRS[(rot + t) % PAIRS.len()];
+            let prog: &'static [u8] = Box::leak(program(width, addend, count, woff as i16, via_r1, base, rb, rs).into_boxed_slice());
             let mut vm = rbpf::EbpfVmRaw::new(Some(prog)).map_err(|x| x.to_string())?;
             let region: &'static mut [u8] = unsafe { std::slice::from_raw_parts_mut(base as *mut u8, 128) };
             match e.as_str() {
@@ -101,5 +111,6 @@ pub fn run_config(cfg: &Value) -> Value {
         *b = 0;
     }
     json!({"width": width, "init": word_json(init), "adds": adds, "final": word_json(fin), "ok": ok, "errors": errs,
-           "before": bytes_json(&before), "after": bytes_json(&after), "engines": engines, "count": count, "word_offset": woff})
+           "before": bytes_json(&before), "after": bytes_json(&after), "engines": engines, "count": count, "word_offset": woff,
+           "regs": (0..engines.len()).map(|t| { let (a, b) = PAIRS[(rot + t) % PAIRS.len()]; json!([a, b]) }).collect::<Vec<_>>()})
 }
